@@ -15,13 +15,13 @@ ASSUME_COMMON = [
 PROPS = {}
 
 PROPS["C16"] = dict(
-    units=[dict(name="c16-mpi-shim-float", src="props/c04.cpp", floor_exempt=True, deps=["lib/shim/mpi.h"], flags=["-DVERIF_T=float", "-DVERIF_AS=16", "-I", "@HERE@/lib/shim", "-pthread"], libs=["-ldl", "-pthread"], quick=dict(shards=2, cases=250), thorough=dict(shards=4, cases=8000)),
-           dict(name="c16-mpi-shim", src="props/c04.cpp", enum=True, floor_exempt=True, deps=["lib/shim/mpi.h"], flags=["-O2", "-DVERIF_T=double", "-DVERIF_AS=16", "-I", "@HERE@/lib/shim", "-pthread"], libs=["-ldl", "-pthread"], quick=dict(shards=2, cases=250), thorough=dict(shards=4, cases=8000)),
+    units=[dict(name="c16-mpi-shim-float", src="props/c04.cpp", floor_exempt=True, deps=["lib/shim/mpi.h"], flags=["-DVERIF_T=float", "-DVERIF_AS=16", "-I", "@HERE@/lib/shim", "-pthread"], libs=["-ldl", "-pthread"], quick=dict(shards=2, cases=600), thorough=dict(shards=4, cases=8000)),
+           dict(name="c16-mpi-shim", src="props/c04.cpp", enum=True, floor_exempt=True, deps=["lib/shim/mpi.h"], flags=["-O2", "-DVERIF_T=double", "-DVERIF_AS=16", "-I", "@HERE@/lib/shim", "-pthread"], libs=["-ldl", "-pthread"], quick=dict(shards=2, cases=600), thorough=dict(shards=4, cases=8000)),
            dict(name="c16", src="props/c16.cpp", enum=True)],
     rule="case = (total, world) checked for every rank (world <= 2048) or 8 structural + 24 sampled ranks "
          "against a 128-bit integer tiling model; non-trivial: world >= 2 and total mod world != 0; "
          "distinct = distinct (total, world, rank set); enumeration: all total <= 300, world <= 64, all ranks",
-    quick=dict(shards=4, cases=5000),
+    quick=dict(shards=4, cases=15000),
     thorough=dict(shards=16, cases=200000),
     floors={"rem=1": 0.02, "rem=world-1": 0.02, "total<world": 0.02},
     level_text="exhaustive enumeration of all (total, world, rank) with total <= 300, world <= 64 plus sampled "
@@ -48,7 +48,7 @@ PROPS["C09"] = dict(
          "values, optionally a midpoint lattice of 2^10..2^16 values, real engines, multi_channel_iteration (selected channel valid, enabled and in the enabled list), and the same weights as integers times denorm_min / min (scale invariance); "
          "non-trivial: >= 2 positive weights (boundaries are always probed) ; distinct = distinct type + weight vector "
          "+ lattice size; inner_evaluations counts single selections",
-    quick=dict(shards=8, cases=1500),
+    quick=dict(shards=8, cases=4500),
     thorough=dict(shards=16, cases=60000),
     floors={"has-zero-weight": 0.2, "zero-first": 0.05, "zero-last": 0.05, "lattice": 0.05, "in-iteration": 0.1},
     level_text="generated weight vectors x forced canonical numbers (every cumulative boundary and its floating-point "
@@ -69,7 +69,7 @@ PROPS["C13"] = dict(
          "permutation and the reversal, optionally 1-2 distributions with 1..12 bins; non-trivial: >= 2 results whose "
          "variances differ by > 10 %, or a result without non-zero calls, or distributions; distinct = distinct "
          "description (type + all results)",
-    quick=dict(shards=8, cases=4000),
+    quick=dict(shards=8, cases=12000),
     thorough=dict(shards=16, cases=300000),
     floors={"has-empty-result": 0.1, "with-distributions": 0.1, "no-results": 0.01, "one-result": 0.03},
     level_text="generated result sequences compared with a long-double reference of the documented formulas "
@@ -85,7 +85,7 @@ PROPS["C13"] = dict(
 )
 
 PROPS["C08"] = dict(
-    units=[dict(name="c08-mpi-shim", src="props/c04.cpp", floor_exempt=True, deps=["lib/shim/mpi.h"], flags=["-DVERIF_T=double", "-DVERIF_AS=8", "-I", "@HERE@/lib/shim", "-pthread"], libs=["-ldl", "-pthread"], quick=dict(shards=2, cases=250), thorough=dict(shards=4, cases=8000)),
+    units=[dict(name="c08-mpi-shim", src="props/c04.cpp", floor_exempt=True, deps=["lib/shim/mpi.h"], flags=["-DVERIF_T=double", "-DVERIF_AS=8", "-I", "@HERE@/lib/shim", "-pthread"], libs=["-ldl", "-pthread"], quick=dict(shards=2, cases=600), thorough=dict(shards=4, cases=8000)),
            dict(name="c08", src="props/c08.cpp", deps=["lib/pwc.hpp"], fuzz=dict(seconds=60))],
     rule="3/4 of the cases: chain of 1..30 multi_channel_refine_weights calls (1..40 channels, generated weights incl. "
          "zeros and unnormalised, data all-zero / single / equal / uniform / over +-15 (float) or +-100 decades, beta in "
@@ -93,7 +93,7 @@ PROPS["C08"] = dict(
          "or default weights, 2..6 iterations of 0..320 calls, integrand zero below a threshold, optionally +inf / -inf / NaN above another, optionally with a distribution); non-trivial: >= 2 "
          "channels with unequal data and (floor active or disabled channel or chain >= 2), for runs: weights changed "
          "and (disabled channel or floor or an iteration without information); distinct = distinct description",
-    quick=dict(shards=8, cases=4000),
+    quick=dict(shards=8, cases=12000),
     thorough=dict(shards=16, cases=200000),
     floors={"zero-information-step": 0.05, "floor-active": 0.1, "disabled-channel": 0.1, "chain>=2": 0.2,
             "run-level": 0.1, "run-iteration-without-information": 0.005},
@@ -109,7 +109,7 @@ PROPS["C08"] = dict(
 )
 
 PROPS["C07"] = dict(
-    units=[dict(name="c07-mpi-shim", src="props/c04.cpp", floor_exempt=True, deps=["lib/shim/mpi.h"], flags=["-DVERIF_T=double", "-DVERIF_AS=7", "-I", "@HERE@/lib/shim", "-pthread"], libs=["-ldl", "-pthread"], quick=dict(shards=2, cases=250), thorough=dict(shards=4, cases=8000)),
+    units=[dict(name="c07-mpi-shim", src="props/c04.cpp", floor_exempt=True, deps=["lib/shim/mpi.h"], flags=["-DVERIF_T=double", "-DVERIF_AS=7", "-I", "@HERE@/lib/shim", "-pthread"], libs=["-ldl", "-pthread"], quick=dict(shards=2, cases=600), thorough=dict(shards=4, cases=8000)),
            dict(name="c07", src="props/c07.cpp", fuzz=dict(seconds=120))],
     rule="6/8 of the cases: chain of 1..50 vegas_refine_pdf calls (1..4 dims, 2..200 bins, alpha in [0,3], start grid "
          "uniform / user (ties, 1e-12 wide bins) / power law / adapted; per-dimension data all-zero, single spike, two "
@@ -118,7 +118,7 @@ PROPS["C07"] = dict(
          "vegas_icdf and a scripted-engine vegas_iteration; 1/8: real hep::vegas runs (2..8 iterations, four peaked "
          "families, zero-call iterations); non-trivial: a refinement judged by the model moved the grid in a chain >= 2, "
          "a non-uniform grid for sampling, a run whose grid changed; distinct = distinct description",
-    quick=dict(shards=8, cases=2500),
+    quick=dict(shards=8, cases=7500),
     thorough=dict(shards=16, cases=120000),
     floors={"zero-data-dimension": 0.1, "chain>=2": 0.2, "non-uniform-start": 0.3, "sampling-level": 0.05,
             "run-level": 0.05, "run-zero-iteration": 0.002},
@@ -136,7 +136,7 @@ PROPS["C07"] = dict(
 )
 
 PROPS["C03"] = dict(
-    units=[dict(name="c03-mpi-shim", src="props/c04.cpp", floor_exempt=True, deps=["lib/shim/mpi.h"], flags=["-DVERIF_T=float", "-DVERIF_AS=3", "-I", "@HERE@/lib/shim", "-pthread"], libs=["-ldl", "-pthread"], quick=dict(shards=2, cases=250), thorough=dict(shards=4, cases=8000)),
+    units=[dict(name="c03-mpi-shim", src="props/c04.cpp", floor_exempt=True, deps=["lib/shim/mpi.h"], flags=["-DVERIF_T=float", "-DVERIF_AS=3", "-I", "@HERE@/lib/shim", "-pthread"], libs=["-ldl", "-pthread"], quick=dict(shards=2, cases=600), thorough=dict(shards=4, cases=8000)),
            dict(name="c03-float", src="props/c03.cpp", deps=["lib/runners.hpp", "lib/pwc.hpp"], flags=["-DVERIF_T=float"]),
            dict(name="c03-double", src="props/c03.cpp", deps=["lib/runners.hpp", "lib/pwc.hpp"], flags=["-DVERIF_T=double"]),
            dict(name="c03-ldouble", src="props/c03.cpp", deps=["lib/runners.hpp", "lib/pwc.hpp"], flags=["-DVERIF_T=long double"])],
@@ -147,7 +147,7 @@ PROPS["C03"] = dict(
          "target precision 0 or 10^-3..1 x text via serialize() or via the file the callback writes; for each case ALL "
          "2^(n-1) interruption sets are run (inner_evaluations); non-trivial: >= 2 iterations with calls and the state / "
          "results differ between first and last iteration; distinct = distinct description; one unit per numeric type",
-    quick=dict(shards=3, cases=500),
+    quick=dict(shards=3, cases=1500),
     thorough=dict(shards=5, cases=20000),
     floors={"interruptions>=2": 0.3, "via-file": 0.15, "early-stop": 0.02, "odd-distribution-name": 0.1,
             "engine:minstd_rand": 0.05, "engine:knuth_b": 0.05, "VEGAS": 0.2, "MULTI": 0.2, "user-state": 0.15},
@@ -172,7 +172,7 @@ PROPS["C05"] = dict(
          "2..40 bins, 1..40 channels; zero-result checkpoints store the first grid / weights; non-trivial: >= 1 result "
          "and a field that is -0, an extreme or a value not representable in single precision, or an odd name with "
          "distributions; distinct = distinct description",
-    quick=dict(shards=8, cases=2500),
+    quick=dict(shards=8, cases=7500),
     thorough=dict(shards=16, cases=120000),
     floors={"hard-value": 0.5, "odd-name": 0.1, "zero-results": 0.1, "with-distributions": 0.3,
             "engine:minstd_rand0": 0.05, "engine:knuth_b": 0.05, "engine:ranlux48": 0.05},
@@ -187,7 +187,7 @@ PROPS["C05"] = dict(
 )
 
 PROPS["C15"] = dict(
-    units=[dict(name="c15-mpi-shim", src="props/c04.cpp", floor_exempt=True, deps=["lib/shim/mpi.h"], flags=["-DVERIF_T=double", "-DVERIF_AS=15", "-I", "@HERE@/lib/shim", "-pthread"], libs=["-ldl", "-pthread"], quick=dict(shards=2, cases=250), thorough=dict(shards=4, cases=8000)),
+    units=[dict(name="c15-mpi-shim", src="props/c04.cpp", floor_exempt=True, deps=["lib/shim/mpi.h"], flags=["-DVERIF_T=double", "-DVERIF_AS=15", "-I", "@HERE@/lib/shim", "-pthread"], libs=["-ldl", "-pthread"], quick=dict(shards=2, cases=600), thorough=dict(shards=4, cases=8000)),
            dict(name="c15-float", src="props/c15.cpp", deps=["lib/runners.hpp", "lib/pwc.hpp"], flags=["-DVERIF_T=float"]),
            dict(name="c15-double", src="props/c15.cpp", deps=["lib/runners.hpp", "lib/pwc.hpp"], flags=["-DVERIF_T=double"]),
            dict(name="c15-ldouble", src="props/c15.cpp", deps=["lib/runners.hpp", "lib/pwc.hpp"], flags=["-DVERIF_T=long double"])],
@@ -197,7 +197,7 @@ PROPS["C15"] = dict(
          "0..n+1 are tried on copies (n <= 6; inner_evaluations) incl. resume of the rest; non-trivial: the history "
          "contains a rollback to 0 < k < n, or a reload before a rollback, or rollback(0) of an adaptive checkpoint with "
          "user state; distinct = distinct description; one unit per numeric type",
-    quick=dict(shards=3, cases=400),
+    quick=dict(shards=3, cases=1200),
     thorough=dict(shards=5, cases=20000),
     floors={"rollback-inner-k": 0.1, "reload-before-rollback": 0.1, "rollback0-user-state": 0.02, "VEGAS": 0.2, "MULTI": 0.2,
             "engine:minstd_rand": 0.05},
@@ -214,8 +214,8 @@ PROPS["C15"] = dict(
 )
 
 PROPS["C14"] = dict(
-    units=[dict(name="c14-mpi-shim", src="props/c04.cpp", floor_exempt=True, deps=["lib/shim/mpi.h"], flags=["-DVERIF_T=float", "-DVERIF_AS=14", "-I", "@HERE@/lib/shim", "-pthread"], libs=["-ldl", "-pthread"], quick=dict(shards=2, cases=250), thorough=dict(shards=4, cases=8000)),
-           dict(name="c14-mpi-shim-ldouble", src="props/c04.cpp", floor_exempt=True, deps=["lib/shim/mpi.h"], flags=["-DVERIF_T=long double", "-DVERIF_AS=14", "-I", "@HERE@/lib/shim", "-pthread"], libs=["-ldl", "-pthread"], quick=dict(shards=2, cases=250), thorough=dict(shards=4, cases=8000)),
+    units=[dict(name="c14-mpi-shim", src="props/c04.cpp", floor_exempt=True, deps=["lib/shim/mpi.h"], flags=["-DVERIF_T=float", "-DVERIF_AS=14", "-I", "@HERE@/lib/shim", "-pthread"], libs=["-ldl", "-pthread"], quick=dict(shards=2, cases=600), thorough=dict(shards=4, cases=8000)),
+           dict(name="c14-mpi-shim-ldouble", src="props/c04.cpp", floor_exempt=True, deps=["lib/shim/mpi.h"], flags=["-DVERIF_T=long double", "-DVERIF_AS=14", "-I", "@HERE@/lib/shim", "-pthread"], libs=["-ldl", "-pthread"], quick=dict(shards=2, cases=600), thorough=dict(shards=4, cases=8000)),
            dict(name="c14", src="props/c14.cpp", deps=["lib/pwc.hpp", "lib/exactsum.hpp"])],
     rule="case = numeric type x N (1..10^5 quick, ..10^7 thorough) x one of 10 value patterns (one large then many "
          "eps/4, alternating with cancellation, geometric decay over 40 binades, random magnitudes over 20 decades with "
@@ -224,7 +224,7 @@ PROPS["C14"] = dict(
          "distribution (none / 1-d / 2-d, all values into one bin or round robin); non-trivial: N >= 1000 AND the naive "
          "left-to-right sum of the same values (computed by the harness) lies outside the bound, i.e. the case can tell "
          "compensated from naive summation; distinct = distinct description",
-    quick=dict(shards=8, cases=250),
+    quick=dict(shards=8, cases=750),
     thorough=dict(shards=16, cases=1500),
     floors={"separates-naive-from-compensated": 0.08, "dist-1d": 0.15, "dist-2d": 0.15, "negated": 0.15, "two-distributions": 0.08},
     level_text="generated adversarial sequences through real iterations; the reported sum (and every distribution bin "
@@ -238,7 +238,7 @@ PROPS["C14"] = dict(
 )
 
 PROPS["C02"] = dict(
-    units=[dict(name="c02-mpi-shim", src="props/c04.cpp", floor_exempt=True, deps=["lib/shim/mpi.h"], flags=["-DVERIF_T=double", "-DVERIF_AS=2", "-I", "@HERE@/lib/shim", "-pthread"], libs=["-ldl", "-pthread"], quick=dict(shards=2, cases=250), thorough=dict(shards=4, cases=8000)),
+    units=[dict(name="c02-mpi-shim", src="props/c04.cpp", floor_exempt=True, deps=["lib/shim/mpi.h"], flags=["-DVERIF_T=double", "-DVERIF_AS=2", "-I", "@HERE@/lib/shim", "-pthread"], libs=["-ldl", "-pthread"], quick=dict(shards=2, cases=600), thorough=dict(shards=4, cases=8000)),
            dict(name="c02", src="props/c02.cpp", deps=["lib/pwc.hpp", "lib/exactsum.hpp"])],
     rule="case = numeric type x integrator (PLAIN 1-4 dims / VEGAS 1-4 dims, 2-16 bins, uniform or user grid, adapting / "
          "multi-channel PWC 1-5 channels with generated weights incl. zeros) x 1..4 iterations with N from {0..3, odd, "
@@ -248,7 +248,7 @@ PROPS["C02"] = dict(
          "evaluations, some N >= 2 and (for adaptive integrators) a non-uniform grid / unequal weights; 1/8 of the cases "
          "instead check value / variance / error of results constructed with N up to 2^53 (around 2^32, N(N-1) around "
          "2^63) against the documented formulas; distinct = distinct description",
-    quick=dict(shards=8, cases=2500),
+    quick=dict(shards=8, cases=7500),
     thorough=dict(shards=16, cases=120000),
     floors={"mixed-zero-nonzero": 0.2, "some-non-finite": 0.04, "N<=3": 0.15, "VEGAS": 0.15, "MULTI": 0.15, "formula-layer": 0.05, "N>2^32": 0.02},
     level_text="independent recomputation from the call log of an instrumented integrand (f per call; weight, VEGAS bins, "
@@ -265,7 +265,7 @@ PROPS["C02"] = dict(
 )
 
 PROPS["C06"] = dict(
-    units=[dict(name="c06-mpi-shim", src="props/c04.cpp", floor_exempt=True, deps=["lib/shim/mpi.h"], flags=["-DVERIF_T=double", "-DVERIF_AS=6", "-I", "@HERE@/lib/shim", "-pthread"], libs=["-ldl", "-pthread"], quick=dict(shards=2, cases=250), thorough=dict(shards=4, cases=8000)),
+    units=[dict(name="c06-mpi-shim", src="props/c04.cpp", floor_exempt=True, deps=["lib/shim/mpi.h"], flags=["-DVERIF_T=double", "-DVERIF_AS=6", "-I", "@HERE@/lib/shim", "-pthread"], libs=["-ldl", "-pthread"], quick=dict(shards=2, cases=600), thorough=dict(shards=4, cases=8000)),
            dict(name="c06", src="props/c06.cpp", deps=["lib/pwc.hpp"])],
     rule="case = numeric type x integrator x 2..5 iterations of 10..2000 calls x integrand family (4) x 0..2 distributions "
          "(1-d, 2-d) x poison set: shape {empty, first call, last call, one in the middle, all, 2 %, probability p} x kind "
@@ -273,7 +273,7 @@ PROPS["C06"] = dict(
          "jacobian, all densities zero, NaN / inf density of a disabled channel}; after every iteration also the variance-weighted and the equally weighted combination of the results so far; paired run zeroes exactly the poisoned data (sane map); non-trivial: an adaptive "
          "integrator with an iteration that has both poisoned and finite non-zero evaluations, or a poisoned distribution "
          "datum; distinct = distinct description",
-    quick=dict(shards=8, cases=1200),
+    quick=dict(shards=8, cases=3600),
     thorough=dict(shards=16, cases=60000),
     floors={"poisoned-return-value": 0.3, "poisoned-distribution-datum": 0.1, "poisoned-weight": 0.05, "all-poisoned": 0.05,
             "VEGAS": 0.2, "MULTI": 0.2},
@@ -289,7 +289,7 @@ PROPS["C06"] = dict(
 )
 
 PROPS["C11"] = dict(
-    units=[dict(name="c11-mpi-shim", src="props/c04.cpp", floor_exempt=True, deps=["lib/shim/mpi.h"], flags=["-DVERIF_T=float", "-DVERIF_AS=11", "-I", "@HERE@/lib/shim", "-pthread"], libs=["-ldl", "-pthread"], quick=dict(shards=2, cases=250), thorough=dict(shards=4, cases=8000)),
+    units=[dict(name="c11-mpi-shim", src="props/c04.cpp", floor_exempt=True, deps=["lib/shim/mpi.h"], flags=["-DVERIF_T=float", "-DVERIF_AS=11", "-I", "@HERE@/lib/shim", "-pthread"], libs=["-ldl", "-pthread"], quick=dict(shards=2, cases=600), thorough=dict(shards=4, cases=8000)),
            dict(name="c11", src="props/c11.cpp", deps=["lib/pwc.hpp"], compilers=["g++", "clang++"], fuzz=dict(seconds=60))],
     rule="case = numeric type x 1..3 distributions (1-d / 2-d, 1..12 bins per axis, ranges unit / negative / quarter "
          "steps / tiny 10^-30 (float 10^-8) / huge 10^30 (float 10^8) / narrow far from 0 / generated); (A) every "
@@ -298,7 +298,7 @@ PROPS["C11"] = dict(
          "time (x candidates with interior y, then y candidates); (B) 2/3 of the cases: a 20..420 call PLAIN / VEGAS / "
          "multi-channel iteration compared bin by bin with separate integrations; built with g++ and clang++; non-trivial: "
          "a coordinate on an edge or outside the range and >= 2 bins filled; distinct = distinct description",
-    quick=dict(shards=4, cases=600),
+    quick=dict(shards=4, cases=1800),
     thorough=dict(shards=8, cases=40000),
     floors={"differential": 0.25, "2d": 0.2, "several-distributions": 0.3},
     level_text="(A) placement model: floor((x - min) / size) in long double decides the bin (x fastest, then y); a "
@@ -314,7 +314,7 @@ PROPS["C11"] = dict(
 )
 
 PROPS["C10"] = dict(
-    units=[dict(name="c10-mpi-shim", src="props/c04.cpp", floor_exempt=True, deps=["lib/shim/mpi.h"], flags=["-DVERIF_T=double", "-DVERIF_AS=10", "-I", "@HERE@/lib/shim", "-pthread"], libs=["-ldl", "-pthread"], quick=dict(shards=2, cases=250), thorough=dict(shards=4, cases=8000)),
+    units=[dict(name="c10-mpi-shim", src="props/c04.cpp", floor_exempt=True, deps=["lib/shim/mpi.h"], flags=["-DVERIF_T=double", "-DVERIF_AS=10", "-I", "@HERE@/lib/shim", "-pthread"], libs=["-ldl", "-pthread"], quick=dict(shards=2, cases=600), thorough=dict(shards=4, cases=8000)),
            dict(name="c10-float", src="props/c10.cpp", flags=["-DVERIF_T=float"]),
            dict(name="c10-double", src="props/c10.cpp", flags=["-DVERIF_T=double"]),
            dict(name="c10-ldouble", src="props/c10.cpp", flags=["-DVERIF_T=long double"])],
@@ -324,7 +324,7 @@ PROPS["C10"] = dict(
          "changing) x projector use x explicit weight requests x grid (uniform / power) or weights incl. zeros; one unit "
          "per numeric type; non-trivial: >= 2 calls and (a multi-draw type/engine combination or zero / non-finite values); "
          "distinct = distinct description",
-    quick=dict(shards=3, cases=1500),
+    quick=dict(shards=3, cases=4500),
     thorough=dict(shards=5, cases=100000),
     floors={"multi-draw": 0.2, "zero-or-non-finite-values": 0.3, "stored-generator": 0.15, "MULTI": 0.2, "VEGAS": 0.2},
     level_text="invariant + agreement with the predictor: a counting wrapper read inside the integrand shows exactly "
@@ -339,7 +339,7 @@ PROPS["C10"] = dict(
 )
 
 PROPS["C12"] = dict(
-    units=[dict(name="c12-mpi-shim", src="props/c04.cpp", floor_exempt=True, deps=["lib/shim/mpi.h"], flags=["-DVERIF_T=double", "-DVERIF_AS=12", "-I", "@HERE@/lib/shim", "-pthread"], libs=["-ldl", "-pthread"], quick=dict(shards=2, cases=250), thorough=dict(shards=4, cases=8000)),
+    units=[dict(name="c12-mpi-shim", src="props/c04.cpp", floor_exempt=True, deps=["lib/shim/mpi.h"], flags=["-DVERIF_T=double", "-DVERIF_AS=12", "-I", "@HERE@/lib/shim", "-pthread"], libs=["-ldl", "-pthread"], quick=dict(shards=2, cases=600), thorough=dict(shards=4, cases=8000)),
            dict(name="c12", src="props/c12.cpp", deps=["lib/runners.hpp", "lib/pwc.hpp"])],
     rule="case = numeric type x integrator (generated configuration as in C03, mt19937) x iteration list of 0..8 entries "
          "(calls 0..2 or 4..304) x one of three layers: (i) logging callback returning false at invocation 1..n+1 or never, "
@@ -348,7 +348,7 @@ PROPS["C12"] = dict(
          "built-in callback with target 10^-3..1 on ordinary integrands, optionally resumed after 1-2 iterations, magnitudes 10^+-(max_exponent10/4), an integrand vanishing on 90 % of the domain (no information in short iterations), a campaign resumed after 5e9 calls; non-trivial: "
          "(i) stop position strictly between 1 and n, (ii) degenerate integrand with >= 2 iterations, (iii) judged (not "
          "boundary-ambiguous) with >= 2 iterations; distinct = distinct description; the MPI forms are exercised in C04",
-    quick=dict(shards=8, cases=1500),
+    quick=dict(shards=8, cases=4500),
     thorough=dict(shards=16, cases=100000),
     floors={"logging-callback": 0.2, "builtin-target-zero": 0.2, "builtin-positive-target": 0.2, "degenerate-integrand": 0.15,
             "resumed-checkpoint": 0.1},
@@ -373,7 +373,7 @@ PROPS["C17"] = dict(
          "1-6 PWC channels, weights incl. zeros, densities early or late, padded coordinate buffer; non-trivial: "
          "multi-channel with a disabled channel and both zero and non-zero integrand values, or an extreme canonical "
          "number; distinct = distinct description",
-    quick=dict(shards=8, cases=2500),
+    quick=dict(shards=8, cases=7500),
     thorough=dict(shards=16, cases=120000),
     floors={"disabled-channel": 0.1, "extreme-canonical-number": 0.3, "MULTI": 0.25, "VEGAS": 0.2, "PLAIN": 0.2},
     level_text="invariant over the event log of an instrumented integrand and channel map: PLAIN one call per point, "
@@ -389,7 +389,7 @@ PROPS["C17"] = dict(
 )
 
 PROPS["C19"] = dict(
-    units=[dict(name="c19-mpi-shim", src="props/c04.cpp", floor_exempt=True, deps=["lib/shim/mpi.h"], flags=["-DVERIF_T=double", "-DVERIF_AS=19", "-I", "@HERE@/lib/shim", "-pthread"], libs=["-ldl", "-pthread"], quick=dict(shards=2, cases=250), thorough=dict(shards=4, cases=8000)),
+    units=[dict(name="c19-mpi-shim", src="props/c04.cpp", floor_exempt=True, deps=["lib/shim/mpi.h"], flags=["-DVERIF_T=double", "-DVERIF_AS=19", "-I", "@HERE@/lib/shim", "-pthread"], libs=["-ldl", "-pthread"], quick=dict(shards=2, cases=600), thorough=dict(shards=4, cases=8000)),
            dict(name="c19", src="props/c19.cpp", deps=["lib/pwc.hpp"])],
     rule="case = numeric type x VEGAS (1-3 dims, 2-25 bins, alpha from {1.5, 0, 0.5, 3, random}, default or user grid) or "
          "multi-channel (1-6 PWC channels, beta, minimum weight, default or user weights incl. zeros / unnormalised) x 1..6 "
@@ -397,7 +397,7 @@ PROPS["C19"] = dict(
          "uninterrupted or resumed through text at a generated set of boundaries; every logged call is checked "
          "(inner_evaluations); non-trivial: >= 2 iterations whose state changed, or user supplied state; distinct = "
          "distinct description; shim-MPI execution is covered by C04",
-    quick=dict(shards=8, cases=1200),
+    quick=dict(shards=8, cases=3600),
     thorough=dict(shards=16, cases=60000),
     floors={"user-state": 0.3, "resumed": 0.3, "VEGAS": 0.3, "MULTI": 0.3},
     level_text="history invariant: results[0] records the user grid / the user weights through the documented "
@@ -414,7 +414,7 @@ PROPS["C19"] = dict(
 )
 
 PROPS["C20"] = dict(
-    units=[dict(name="c20-mpi-shim", src="props/c04.cpp", floor_exempt=True, deps=["lib/shim/mpi.h"], flags=["-DVERIF_T=float", "-DVERIF_AS=20", "-I", "@HERE@/lib/shim", "-pthread"], libs=["-ldl", "-pthread"], quick=dict(shards=2, cases=250), thorough=dict(shards=4, cases=8000)),
+    units=[dict(name="c20-mpi-shim", src="props/c04.cpp", floor_exempt=True, deps=["lib/shim/mpi.h"], flags=["-DVERIF_T=float", "-DVERIF_AS=20", "-I", "@HERE@/lib/shim", "-pthread"], libs=["-ldl", "-pthread"], quick=dict(shards=2, cases=600), thorough=dict(shards=4, cases=8000)),
            dict(name="c20", src="props/c20.cpp", deps=["lib/runners.hpp", "lib/pwc.hpp"], fuzz=dict(seconds=60))],
     rule="2/3 of the cases: one generated run (PLAIN / VEGAS / multi-channel with 1..40 PWC channels; weight pattern equal / "
          "one large / increasing / ties / disabled / two minimal and many distinct / generated; integrand ordinary, "
@@ -422,7 +422,7 @@ PROPS["C20"] = dict(
          "four callback modes with std::cout captured; 1/3: multi_channel_summary / weight_info on a checkpoint assembled "
          "from a valid generated weight vector (1..40 channels, 1/3 of them >= 13); non-trivial: multi-channel with >= 3 "
          "channels and unequal weights, or a degenerate integrand; distinct = distinct description; shim-MPI modes in C04",
-    quick=dict(shards=8, cases=800),
+    quick=dict(shards=8, cases=2400),
     thorough=dict(shards=16, cases=40000),
     floors={"run-layer": 0.4, "direct-layer": 0.2, "degenerate-integrand": 0.1, "many-channels": 0.02, "abbreviated-summary": 0.01,
             "positive-target": 0.1},
@@ -438,7 +438,7 @@ PROPS["C20"] = dict(
 )
 
 PROPS["C01"] = dict(
-    units=[dict(name="c01-mpi-shim", src="props/c04.cpp", floor_exempt=True, deps=["lib/shim/mpi.h"], flags=["-DVERIF_T=double", "-DVERIF_AS=1", "-I", "@HERE@/lib/shim", "-pthread"], libs=["-ldl", "-pthread"], quick=dict(shards=2, cases=250), thorough=dict(shards=4, cases=8000)),
+    units=[dict(name="c01-mpi-shim", src="props/c04.cpp", floor_exempt=True, deps=["lib/shim/mpi.h"], flags=["-DVERIF_T=double", "-DVERIF_AS=1", "-I", "@HERE@/lib/shim", "-pthread"], libs=["-ldl", "-pthread"], quick=dict(shards=2, cases=600), thorough=dict(shards=4, cases=8000)),
            dict(name="c01", src="props/c01.cpp", deps=["lib/pwc.hpp"])],
     rule="case = numeric type x integrand (sum of 1..3 multilinear terms prod_k (a_k + b_k x_k), coefficients of either sign, "
          "1/5 of the cases f == 1) x one of: PLAIN (1-4 dims, lattice M^d); VEGAS (1-3 dims, 2..128 bins, 1-4 sub-points per "
@@ -449,7 +449,7 @@ PROPS["C01"] = dict(
          "selection number at the midpoint of each enabled channel's interval; the scripted engine plays the complete "
          "lattice (inner_evaluations = integrand calls); non-trivial: non-constant integrand and a non-uniform grid (bin "
          "width off by > 0.1 %) resp. >= 2 enabled channels with different weights; distinct = distinct description",
-    quick=dict(shards=8, cases=400),
+    quick=dict(shards=8, cases=1200),
     thorough=dict(shards=16, cases=8000),
     floors={"VEGAS": 0.25, "MULTI": 0.25, "PLAIN": 0.1, "non-uniform-grid": 0.15, "disabled-channel": 0.05, "common-jacobian-factor": 0.1,
             "uncovered-cells": 0.02, "vegas-high-dimension": 0.02, "with-distribution": 0.25},
@@ -465,7 +465,7 @@ PROPS["C01"] = dict(
 )
 
 PROPS["C18"] = dict(
-    units=[dict(name="c18-mpi-shim", src="props/c04.cpp", floor_exempt=True, deps=["lib/shim/mpi.h"], flags=["-DVERIF_T=double", "-DVERIF_AS=18", "-I", "@HERE@/lib/shim", "-pthread"], libs=["-ldl", "-pthread"], quick=dict(shards=2, cases=250), thorough=dict(shards=4, cases=8000)),
+    units=[dict(name="c18-mpi-shim", src="props/c04.cpp", floor_exempt=True, deps=["lib/shim/mpi.h"], flags=["-DVERIF_T=double", "-DVERIF_AS=18", "-I", "@HERE@/lib/shim", "-pthread"], libs=["-ldl", "-pthread"], quick=dict(shards=2, cases=600), thorough=dict(shards=4, cases=8000)),
            dict(name="c18", src="props/c18.cpp", deps=["lib/runners.hpp", "lib/pwc.hpp"], nosan=True, libs=["-ldl"])],
     level="fault_enumeration",
     rule="case = one workload: integrator (generated configuration, float or double, mt19937 or minstd_rand, with / without "
@@ -475,7 +475,7 @@ PROPS["C18"] = dict(
          "write/writev positions additionally after 0, 1, half, all-1 bytes (thorough: every prefix for checkpoints <= 4 kB, "
          "64 sampled prefixes otherwise), plus a non-fatal short write at every write, plus a write error (EIO once / ENOSPC until the callback returns / half the bytes then ENOSPC) at every write, followed by a kill after that callback or by nothing; file names with and without extension, hidden, ending in .tmp or ~; inner_evaluations = crash / fault "
          "experiments; non-trivial: a crash while a complete checkpoint was on disk; distinct = distinct workload description",
-    quick=dict(shards=8, cases=20),
+    quick=dict(shards=8, cases=60),
     thorough=dict(shards=16, cases=300),
     floors={"crash-with-complete-file-at-stake": 0.35, "file-from-earlier-run": 0.08, "larger-than-stream-buffer": 0.08},
     exhaustive_claim=False,
@@ -506,7 +506,7 @@ PROPS["C04"] = dict(
          "independent_bits_engine<7>) x built-in mpi_callback mode (silent / verbose / writing, 1/6 with an unwritable path) x target 0 or 10^-2..1 x communicator = the world or a slice of a larger world; every case is preceded by a run of other dimensions through the same template instantiations; float: 2^24 + 3 calls enumerated; one "
          "unit per numeric type; non-trivial: P >= 2 and some calls not divisible by P or below P; inner_evaluations = "
          "points compared with the serial run; distinct = distinct description",
-    quick=dict(shards=3, cases=300),
+    quick=dict(shards=3, cases=900),
     thorough=dict(shards=5, cases=12000),
     floors={"uneven-split": 0.4, "calls<P": 0.2, "P>=9": 0.1, "positive-target": 0.1, "with-distributions": 0.3, "VEGAS": 0.2, "MULTI": 0.2,
             "engine:range 2^14": 0.08, "engine:independent_bits<7>": 0.08, "non-finite-region": 0.08},
